@@ -40,6 +40,10 @@ const (
 	ScalerTypeApple uint32 = 0x74727565 // "true"
 )
 
+// maxTables is the largest number of tables Read accepts and Write produces.
+// The largest value observed amongst the fonts on my laptop is 28.
+const maxTables = 280
+
 // Info contains information about the tables present in an sfnt font file.
 type Info struct {
 	ScalerType uint32
@@ -72,8 +76,7 @@ func Read(r io.ReaderAt) (*Info, error) {
 			Feature:   fmt.Sprintf("scaler type 0x%08x", scalerType),
 		}
 	}
-	if numTables > 280 {
-		// the largest value observed amongst the fonts on my laptop is 28
+	if numTables > maxTables {
 		return nil, &parser.InvalidFontError{
 			SubSystem: "sfnt/header",
 			Reason:    "too many tables",
